@@ -4,9 +4,12 @@ import (
 	"bytes"
 	"crypto/elliptic"
 	cryptorand "crypto/rand"
+	"crypto/rsa"
 	"crypto/sha256"
 	"crypto/sha512"
+	"encoding/json"
 	"fmt"
+	"os"
 	"strings"
 
 	hpke "github.com/cisco/go-hpke"
@@ -48,6 +51,66 @@ type outReq struct {
 type issuerSet struct {
 	seed int64
 	t3w  map[string]*t3World
+	// one client object per token type, constructed once and used for every
+	// request of a run (clients are meant to be long-lived objects)
+	c1 *type1.BasicPrivateClient
+	c2 *type2.BasicPublicClient
+	c5 *type5.BatchedPrivateClient
+}
+
+func (s *issuerSet) client1() type1.BasicPrivateClient {
+	if s.c1 == nil {
+		c := type1.NewBasicPrivateClient()
+		s.c1 = &c
+	}
+	return *s.c1
+}
+func (s *issuerSet) client2() type2.BasicPublicClient {
+	if s.c2 == nil {
+		c := type2.NewBasicPublicClient()
+		s.c2 = &c
+	}
+	return *s.c2
+}
+func (s *issuerSet) client5() type5.BatchedPrivateClient {
+	if s.c5 == nil {
+		c := type5.NewBatchedPrivateClient()
+		s.c5 = &c
+	}
+	return *s.c5
+}
+
+// voprf returns the VOPRF key of a named issuer. "kc" is a key whose key id
+// ends in the same byte as k1's (a colliding truncated key id).
+func (s *issuerSet) voprf(t int, key string) *oprf.PrivateKey {
+	mk := func(name string) *oprf.PrivateKey {
+		if t == 1 {
+			return p384Key(s.seed, name)
+		}
+		return ristrettoKey(s.seed, name)
+	}
+	if key != "kc" {
+		return mk(key)
+	}
+	last := func(k *oprf.PrivateKey) byte {
+		b, _ := k.Public().MarshalBinary()
+		h := sha256.Sum256(b)
+		return h[31]
+	}
+	want := last(mk("k1"))
+	for i := 0; ; i++ {
+		k := mk(fmt.Sprintf("kc-%d", i))
+		if last(k) == want {
+			return k
+		}
+	}
+}
+
+func rsaByName(key string) *rsa.PrivateKey {
+	if key == "big" {
+		return rsaBig()
+	}
+	return rsaKey(rsaIdx(key))
 }
 
 func (s *issuerSet) world(key string, origin string) *t3World {
@@ -86,11 +149,11 @@ func (s *issuerSet) create(t, n int, key string, challenge []byte, nonces [][]by
 	}()
 	switch t {
 	case 1:
-		k := p384Key(s.seed, key)
+		k := s.voprf(1, key)
 		iss := type1.NewBasicPrivateIssuer(k)
 		o.pubBytes, _ = iss.TokenKey().MarshalBinary()
 		keyIDArg = iss.TokenKeyID()
-		st, err := type1.NewBasicPrivateClient().CreateTokenRequest(challenge, nonces[0], keyIDArg, iss.TokenKey())
+		st, err := s.client1().CreateTokenRequest(challenge, nonces[0], keyIDArg, iss.TokenKey())
 		o.createErr = err
 		if err == nil {
 			o.reqBytes = append([]byte{}, st.Request().Marshal()...)
@@ -107,11 +170,11 @@ func (s *issuerSet) create(t, n int, key string, challenge []byte, nonces [][]by
 		}
 		o.iverify = func(tok tokens.Token) bool { return iss.Verify(tok) == nil }
 	case 5:
-		k := ristrettoKey(s.seed, key)
+		k := s.voprf(5, key)
 		iss := type5.NewBatchedPrivateIssuer(k)
 		o.pubBytes, _ = iss.TokenKey().MarshalBinary()
 		keyIDArg = iss.TokenKeyID()
-		st, err := type5.NewBatchedPrivateClient().CreateTokenRequest(challenge, nonces, keyIDArg, iss.TokenKey())
+		st, err := s.client5().CreateTokenRequest(challenge, nonces, keyIDArg, iss.TokenKey())
 		o.createErr = err
 		if err == nil {
 			o.reqBytes = append([]byte{}, st.Request().Marshal()...)
@@ -174,21 +237,21 @@ func (s *issuerSet) evaluate(t int, key string, reqBytes []byte, origin string) 
 		if !req.Unmarshal(reqBytes) {
 			return nil, false, fmt.Errorf("decode")
 		}
-		resp, err = type1.NewBasicPrivateIssuer(p384Key(s.seed, key)).Evaluate(req)
+		resp, err = type1.NewBasicPrivateIssuer(s.voprf(1, key)).Evaluate(req)
 		return resp, true, err
 	case 5:
 		req := new(type5.BatchedPrivateTokenRequest)
 		if !req.Unmarshal(reqBytes) {
 			return nil, false, fmt.Errorf("decode")
 		}
-		resp, err = type5.NewBatchedPrivateIssuer(ristrettoKey(s.seed, key)).Evaluate(req)
+		resp, err = type5.NewBatchedPrivateIssuer(s.voprf(5, key)).Evaluate(req)
 		return resp, true, err
 	case 2:
 		req := new(type2.BasicPublicTokenRequest)
 		if !req.Unmarshal(reqBytes) {
 			return nil, false, fmt.Errorf("decode")
 		}
-		resp, err = type2.NewBasicPublicIssuer(rsaKey(rsaIdx(key))).Evaluate(req)
+		resp, err = type2.NewBasicPublicIssuer(rsaByName(key)).Evaluate(req)
 		return resp, true, err
 	case 3:
 		resp, _, err = s.world(key, origin).issuer.Evaluate(reqBytes)
@@ -254,18 +317,36 @@ func execRun(c *ctx, in ev) ev {
 	if t != 5 {
 		n = 1
 	}
+	nonceLen := 32
+	if kind == "OddNonce" {
+		nonceLen = jInt(mut["len"])
+	}
 	mkNonces := func() [][]byte {
 		ns := [][]byte{}
 		for i := 0; i < n; i++ {
-			ns = append(ns, randNonce(r))
+			ns = append(ns, randBytes(r, nonceLen))
 		}
 		return ns
+	}
+	pinned := "k1"
+	switch kind {
+	case "ForeignKeyCollide":
+		pinned = "kc" // key id ends in the same byte as k1's; the response will come from k1
+	case "BigKey":
+		pinned = "big"
 	}
 	e := ev{"op": "Run", "t": t, "n": n, "chlen": chlen, "olen": olen, "mut": mut, "create_ok": false, "decode_ok": false, "eval_ok": false,
 		"fin_ok": false, "err": "", "tokens": []any{}, "nonces": []any{}, "ctx": B(nil), "keyid": B(nil), "oracle": []any{}, "iverify": []any{}, "panic": ""}
 	e["panic"] = guard(func() {
 		challenge := randBytes(r, chlen)
-		r1 := s.create(t, n, "k1", challenge, mkNonces(), origin, "c1")
+		if kind == "ForeignKeyCollide" {
+			// the same client object has served a complete run for issuer k1 before
+			r0 := s.create(t, n, "k1", randBytes(r, chlen), mkNonces(), origin, "c1")
+			if resp0, _, err := s.evaluate(t, "k1", r0.reqBytes, origin); err == nil {
+				r0.finalize(resp0)
+			}
+		}
+		r1 := s.create(t, n, pinned, challenge, mkNonces(), origin, "c1")
 		e["nonces"] = list(r1.nonces)
 		cx := sha256.Sum256(challenge)
 		kid := sha256.Sum256(r1.pubBytes)
@@ -275,8 +356,10 @@ func execRun(c *ctx, in ev) ev {
 			return
 		}
 		e["create_ok"] = true
-		evalKey, evalReq, evalOrigin := "k1", r1.reqBytes, origin
+		evalKey, evalReq, evalOrigin := pinned, r1.reqBytes, origin
 		switch kind {
+		case "ForeignKeyCollide":
+			evalKey = "k1"
 		case "ForeignKey":
 			evalKey = "k2"
 			if t == 3 {
@@ -657,10 +740,20 @@ func detBlind(seed int64, t int, name string) []byte {
 func execDet(c *ctx, in ev) []ev {
 	out := []ev{{"op": "DetNew"}}
 	reqs, toks := &interner{m: map[string]string{}, p: "q"}, &interner{m: map[string]string{}, p: "t"}
+	elems := &interner{m: map[string]string{}, p: "e"}
+	// Phase 1 creates every request of the matrix, phase 2 evaluates and
+	// finalizes them in reverse order: request states must not share blinds
+	// or buffers with requests created later.
+	type pending struct {
+		e   ev
+		fin func() ([]byte, error)
+	}
+	var pend []pending
 	for _, row := range gL(in, "rows") {
 		rw := row.(map[string]any)
 		t, key, nc, blind, salt := jInt(rw["t"]), rw["key"].(string), rw["nc"].(string), rw["blind"].(string), rw["salt"].(string)
-		e := ev{"op": "Det", "t": t, "key": key, "nc": nc, "blind": blind, "salt": salt, "ok": false, "req": "", "tok": "", "err": ""}
+		e := ev{"op": "Det", "t": t, "key": key, "nc": nc, "blind": blind, "salt": salt, "ok": false, "req": "", "tok": "", "err": "", "elems": []any{}}
+		var fin func() ([]byte, error)
 		p := guard(func() {
 			challenge := hashBytes(c.seed, "det-ch-"+nc, 24)
 			nonce := hashBytes(c.seed, "det-nonce-"+nc, 32)
@@ -674,17 +767,20 @@ func execDet(c *ctx, in ev) []ev {
 					return
 				}
 				e["req"] = reqs.id(st.Request().Marshal())
-				resp, err := iss.Evaluate(st.Request())
-				if err != nil {
-					e["err"] = err.Error()
-					return
+				fin = func() ([]byte, error) {
+					resp, err := iss.Evaluate(st.Request())
+					if err != nil {
+						return nil, err
+					}
+					tok, err := st.FinalizeToken(resp)
+					if err != nil {
+						return nil, err
+					}
+					if iss.Verify(tok) != nil {
+						return nil, fmt.Errorf("token does not verify")
+					}
+					return tok.Marshal(), nil
 				}
-				tok, err := st.FinalizeToken(resp)
-				if err != nil {
-					e["err"] = err.Error()
-					return
-				}
-				e["tok"], e["ok"] = toks.id(tok.Marshal()), true
 			case 2:
 				k := rsaKey(rsaIdx(key))
 				iss := type2.NewBasicPublicIssuer(k)
@@ -695,51 +791,182 @@ func execDet(c *ctx, in ev) []ev {
 					return
 				}
 				e["req"] = reqs.id(st.Request().Marshal())
-				resp, err := iss.Evaluate(st.Request())
-				if err != nil {
-					e["err"] = err.Error()
-					return
+				fin = func() ([]byte, error) {
+					resp, err := iss.Evaluate(st.Request())
+					if err != nil {
+						return nil, err
+					}
+					tok, err := st.FinalizeToken(resp)
+					if err != nil {
+						return nil, err
+					}
+					return tok.Marshal(), nil
 				}
-				tok, err := st.FinalizeToken(resp)
-				if err != nil {
-					e["err"] = err.Error()
-					return
-				}
-				e["tok"], e["ok"] = toks.id(tok.Marshal()), true
 			case 5:
 				k := ristrettoKey(c.seed, key)
 				iss := type5.NewBatchedPrivateIssuer(k)
-				nonces := [][]byte{nonce, hashBytes(c.seed, "det-nonce2-"+nc, 32)}
-				blinds := [][]byte{detBlind(c.seed, 5, blind), detBlind(c.seed, 5, blind+"-second")}
+				// the row's nonce/blind lists: "n1+n2" style names select the batch composition
+				var nonces, blinds [][]byte
+				var names []any
+				bnames := strings.Split(blind, "+")
+				for i, nn := range strings.Split(nc, "+") {
+					nonces = append(nonces, hashBytes(c.seed, "det-nonce-"+nn, 32))
+					blinds = append(blinds, detBlind(c.seed, 5, bnames[i]))
+					names = append(names, []any{nn, bnames[i]})
+				}
+				challenge = hashBytes(c.seed, "det-ch-t5", 24)
 				st, err := type5.NewBatchedPrivateClient().CreateTokenRequestWithBlinds(challenge, nonces, iss.TokenKeyID(), iss.TokenKey(), blinds)
 				if err != nil {
 					e["err"] = err.Error()
 					return
 				}
 				e["req"] = reqs.id(st.Request().Marshal())
-				resp, err := iss.Evaluate(st.Request())
-				if err != nil {
-					e["err"] = err.Error()
-					return
+				el := []any{}
+				for i, x := range st.Request().BlindedReq {
+					el = append(el, []any{names[i].([]any)[0], names[i].([]any)[1], elems.id(x)})
 				}
-				ts, err := st.FinalizeTokens(resp)
-				if err != nil {
-					e["err"] = err.Error()
-					return
+				e["elems"] = el
+				fin = func() ([]byte, error) {
+					resp, err := iss.Evaluate(st.Request())
+					if err != nil {
+						return nil, err
+					}
+					ts, err := st.FinalizeTokens(resp)
+					if err != nil {
+						return nil, err
+					}
+					var all []byte
+					for _, tk := range ts {
+						if iss.Verify(tk) != nil {
+							return nil, fmt.Errorf("token does not verify")
+						}
+						all = append(all, tk.Marshal()...)
+					}
+					return all, nil
 				}
-				e["tok"], e["ok"] = toks.id(append(ts[0].Marshal(), ts[1].Marshal()...)), true
 			}
 		})
 		if p != "" {
 			e["err"] = "panic: " + p
 		}
+		pend = append(pend, pending{e, fin})
+	}
+	for i := len(pend) - 1; i >= 0; i-- {
+		pe := pend[i]
+		if pe.fin == nil {
+			continue
+		}
+		p := guard(func() {
+			tb, err := pe.fin()
+			if err != nil {
+				pe.e["err"] = err.Error()
+				return
+			}
+			pe.e["tok"], pe.e["ok"] = toks.id(tb), true
+		})
+		if p != "" {
+			pe.e["err"] = "panic: " + p
+		}
+	}
+	for _, pe := range pend {
+		out = append(out, pe.e)
+	}
+	return out
+}
+
+// shipped vector files of the pinned library version (requests, responses and tokens as recorded bytes)
+type goVector struct {
+	SkS       string   `json:"skS"`
+	PkS       string   `json:"pkS"`
+	Challenge string   `json:"token_challenge"`
+	Nonce     string   `json:"nonce"`
+	Nonces    []string `json:"nonces"`
+	Blind     string   `json:"blind"`
+	Blinds    []string `json:"blinds"`
+	Salt      string   `json:"salt"`
+	Request   string   `json:"token_request"`
+	Response  string   `json:"token_response"`
+	Token     string   `json:"token"`
+	Tokens    []string `json:"tokens"`
+}
+
+func loadGoVectors(rel string) []goVector {
+	data, err := os.ReadFile(repoPath(rel))
+	if err != nil {
+		return nil
+	}
+	var v []goVector
+	if json.Unmarshal(data, &v) != nil {
+		return nil
+	}
+	return v
+}
+
+// execShippedVectors replays the repository's own recorded vectors: the
+// request must be reproduced byte for byte and the recorded response must
+// finalize to the recorded token(s).
+func execShippedVectors(c *ctx) []ev {
+	out := []ev{}
+	add := func(name string, i int, f func() (bool, bool)) {
+		e := ev{"op": "Vector", "index": name + fmt.Sprint(i), "req_eq": false, "tok_eq": false, "batch_eq": true, "err": ""}
+		p := guard(func() { e["req_eq"], e["tok_eq"] = f() })
+		if p != "" {
+			e["err"] = "panic: " + p
+		}
 		out = append(out, e)
+	}
+	for i, v := range loadGoVectors("tokens/type1/type1-issuance-test-vectors.json") {
+		v := v
+		add("type1-", i, func() (bool, bool) {
+			iss := type1.NewBasicPrivateIssuer(util.MustUnmarshalPrivateOPRFKey(unhex(v.SkS)))
+			st, err := type1.NewBasicPrivateClient().CreateTokenRequestWithBlind(unhex(v.Challenge), unhex(v.Nonce), iss.TokenKeyID(), iss.TokenKey(), unhex(v.Blind))
+			if err != nil {
+				return false, false
+			}
+			tok, err := st.FinalizeToken(unhex(v.Response))
+			return bytes.Equal(st.Request().Marshal(), unhex(v.Request)), err == nil && bytes.Equal(tok.Marshal(), unhex(v.Token))
+		})
+	}
+	for i, v := range loadGoVectors("tokens/type2/type2-issuance-test-vectors.json") {
+		v := v
+		add("type2-", i, func() (bool, bool) {
+			iss := type2.NewBasicPublicIssuer(util.MustUnmarshalPrivateKey(unhex(v.SkS)))
+			st, err := type2.NewBasicPublicClient().CreateTokenRequestWithBlind(unhex(v.Challenge), unhex(v.Nonce), iss.TokenKeyID(), iss.TokenKey(), unhex(v.Blind), unhex(v.Salt))
+			if err != nil {
+				return false, false
+			}
+			tok, err := st.FinalizeToken(unhex(v.Response))
+			return bytes.Equal(st.Request().Marshal(), unhex(v.Request)), err == nil && bytes.Equal(tok.Marshal(), unhex(v.Token))
+		})
+	}
+	for i, v := range loadGoVectors("tokens/type5/type5-issuance-test-vectors.json") {
+		v := v
+		add("type5-", i, func() (bool, bool) {
+			iss := type5.NewBatchedPrivateIssuer(util.MustUnmarshalBatchedPrivateOPRFKey(unhex(v.SkS)))
+			var nonces, blinds [][]byte
+			for _, x := range v.Nonces {
+				nonces = append(nonces, unhex(x))
+			}
+			for _, x := range v.Blinds {
+				blinds = append(blinds, unhex(x))
+			}
+			st, err := type5.NewBatchedPrivateClient().CreateTokenRequestWithBlinds(unhex(v.Challenge), nonces, iss.TokenKeyID(), iss.TokenKey(), blinds)
+			if err != nil {
+				return false, false
+			}
+			toks, err := st.FinalizeTokens(unhex(v.Response))
+			ok := err == nil && len(toks) == len(v.Tokens)
+			for k := range toks {
+				ok = ok && k < len(v.Tokens) && bytes.Equal(toks[k].Marshal(), unhex(v.Tokens[k]))
+			}
+			return bytes.Equal(st.Request().Marshal(), unhex(v.Request)), ok
+		})
 	}
 	return out
 }
 
 func execVectors(c *ctx, in ev) []ev {
-	out := []ev{}
+	out := execShippedVectors(c)
 	for vi, v := range loadRustVectors() {
 		e := ev{"op": "Vector", "index": vi, "req_eq": false, "tok_eq": false, "batch_eq": false, "err": ""}
 		p := guard(func() {
@@ -879,6 +1106,15 @@ func genIssuance(c *ctx, emit func(ev)) {
 				}
 			}
 			for rep := 0; rep < c.tierInt(2, 6); rep++ {
+				if t == 1 || t == 5 {
+					run(t, n, 16, 14, ev{"kind": "ForeignKeyCollide"})
+				}
+				for _, nl := range []int{0, 31, 33, 64} {
+					run(t, n, 16, 14, ev{"kind": "OddNonce", "len": nl})
+				}
+				if t == 2 {
+					run(t, n, 16, 14, ev{"kind": "BigKey"})
+				}
 				run(t, n, 16, 14, ev{"kind": "ForeignKey"})
 				run(t, n, 16, 14, ev{"kind": "ForeignReq"})
 				run(t, n, 16, 14, ev{"kind": "Random"})
@@ -979,7 +1215,14 @@ func genIssuance(c *ctx, emit func(ev)) {
 			names = append(names, "n-1", "b3", "b4", "b5", "b6", "b7", "b8", "b9", "b10", "b11", "b12", "b13")
 		}
 		rows := []any{}
-		for _, t := range []int{1, 2, 5} {
+		// type 5: batch compositions - an element is a function of (key, nonce, blind) wherever it stands
+		for _, key := range []string{"k1", "k2"} {
+			for _, comp := range [][2]string{{"n1+n2", "b1+b2"}, {"n1+n2", "b2+b1"}, {"n2+n1", "b2+b1"}, {"n1", "b1"}, {"n2", "b2"}, {"n1", "b2"},
+				{"n1+n2+n3", "b1+b2+one"}, {"n3+n1", "one+b1"}, {"n1+n2", "b1+b1"}, {"n1+n2", "b1+b2"}, {"n1+n2", "lead0+b2"}, {"n1+n2", "b3+b4"}} {
+				rows = append(rows, ev{"t": 5, "key": key, "nc": comp[0], "blind": comp[1], "salt": "s1"})
+			}
+		}
+		for _, t := range []int{1, 2} {
 			for _, key := range []string{"k1", "k2"} {
 				for _, nc := range []string{"n1", "n2"} {
 					for _, salt := range []string{"s1", "s2"} {
